@@ -842,3 +842,39 @@ update_umi = Contract(
     bounded='counters of 1-3 UMIs with concrete counts',
 )
 UNITS.append(update_umi)
+
+
+# ------------------------------------------------------------------------------ set_meta: how a molecule-level tag reaches the records
+# write_tags writes af / TF / RC through Molecule.set_meta and Fragment.set_meta (hooked in the write_tags unit): every record of
+# every fragment of the molecule gets the tag with the value given
+def setmeta_setup(eng):
+    eng.ghost.clear()
+    eng.spec_env['GHOST'] = eng.ghost
+
+
+def setmeta_molecule(eng, name):
+    frags = []
+    reads = []
+    for i, paired in enumerate((True, False, True)):
+        r1 = stubs.make_read(eng, 'f%d_R1' % i, tags={'af': INT}, closed=True)
+        r2 = stubs.make_read(eng, 'f%d_R2' % i, tags={'af': INT}, closed=True) if paired else None
+        reads += [r for r in (r1, r2) if r is not None]
+        frags.append(Obj('Fragment', {'reads': [r1, r2], 'meta': {}}, info=eng.loader.classref(FF, 'Fragment')))
+    eng.spec_env['READS'] = reads
+    eng.spec_env['FRAGS'] = frags
+    return Obj('Molecule', {'fragments': frags}, info=eng.loader.classref(FM, 'Molecule'))
+
+
+set_meta = Contract(
+    PROP, FM + '::Molecule.set_meta', name='Molecule.set_meta[3 fragments, one of them single-end]',
+    params={'self': setmeta_molecule, 'tag': ('const', 'af'), 'value': 'int'},
+    setup=setmeta_setup,
+    ensures={
+        'every_record_of_every_fragment_carries_the_value': 'all(r.has_tag("af") and r.get_tag("af") == value for r in READS)',
+        'fragment_level_copy': 'all(f.meta["af"] == value for f in FRAGS)',
+    },
+    raises={},
+    bounded='a molecule of 3 fragments (two paired, one single-end), records with an arbitrary earlier value of the tag',
+    assumptions=['pysam set_tag/get_tag/has_tag as a tag table (A4); Molecule.__iter__ / Fragment.__iter__ interpreted'],
+)
+UNITS.append(set_meta)
